@@ -52,6 +52,57 @@ def _one(args):
   return (mid, 'silent', '')
 
 
+VERIF = os.path.dirname(os.path.dirname(os.path.abspath(__file__)))
+
+
+def _corpus(prop):
+  """Stored material for this property: seeded/<prop>-* (must be reported) and benign/<prop>-* (must not)."""
+  out = []
+  for kind, sub in (('break', 'seeded'), ('benign-corpus', 'benign')):
+    d = os.path.join(VERIF, sub)
+    if not os.path.isdir(d):
+      continue
+    for name in sorted(os.listdir(d)):
+      pf = os.path.join(d, name, 'patch.diff')
+      if name.split('-')[0] == prop and os.path.isfile(pf):
+        out.append(('%s/%s' % (sub, name), kind, pf))
+  return out
+
+
+def _one_patch(args):
+  prop, root, mid, kind, patch_file, base = args
+  from . import check, udiff
+  try:
+    with open(patch_file, encoding='utf-8') as f:
+      ptxt = f.read()
+
+    def read(rel):
+      try:
+        with open(os.path.join(root, rel), encoding='utf-8') as g:
+          return g.read()
+      except OSError:
+        return None
+    overlay = udiff.apply(ptxt, read)
+  except udiff.PatchError as e:
+    return (mid, 'skipped', 'patch does not apply to this tree: %s' % e)
+  overlay = {k: v for k, v in overlay.items() if k.startswith('flax/') and k.endswith('.py')}
+  try:
+    for k, v in overlay.items():
+      compile(v, k, 'exec', dont_inherit=True)
+    repo = Repo(root, overlay=overlay)
+    ctx, errors = check.run_rules(prop, root, 'quick', repo=repo)
+  except Exception as e:
+    return (mid, 'error', '%s: %s' % (type(e).__name__, e))
+  new_f = sorted(_idents(ctx) - set(base))
+  if kind == 'break':
+    if new_f:
+      return (mid, 'detected', new_f[0][:160])
+    return (mid, 'missed', 'stored seeded change not reported%s' % ((': ' + errors[0][:160]) if errors else ''))
+  if new_f:
+    return (mid, 'false-alarm', new_f[0][:200])
+  return (mid, 'inconclusive' if errors else 'silent', errors[0][:160] if errors else '')
+
+
 def run(prop, root):
   from . import check
   from .props import META
@@ -60,14 +111,37 @@ def run(prop, root):
   ctx, _ = check.run_rules(prop, root, 'quick')
   base = sorted(_idents(ctx))
   jobs = [(prop, root, m.id, m.file, m.old, m.new, m.expect, m.kind, m.count, base) for m in muts]
+  corpus = _corpus(prop)
+  pjobs = [(prop, root, mid, kind, pf, base) for mid, kind, pf in corpus]
   res = []
-  if jobs:
-    with ProcessPoolExecutor(max_workers=min(16, len(jobs))) as ex:
-      res = list(ex.map(_one, jobs))
+  if jobs or pjobs:
+    with ProcessPoolExecutor(max_workers=min(16, len(jobs) + len(pjobs))) as ex:
+      res = list(ex.map(_one, jobs)) + list(ex.map(_one_patch, pjobs))
   out = {'break_total': 0, 'break_detected': 0, 'benign_total': 0, 'benign_silent': 0, 'skipped': 0,
          'failures': [], 'results': []}
   kinds = {m.id: m.kind for m in muts}
+  kinds.update({mid: kind for mid, kind, _ in corpus})
+  out.update({'corpus_break_total': 0, 'corpus_break_detected': 0, 'corpus_benign_total': 0, 'corpus_benign_silent': 0, 'corpus_benign_inconclusive': 0})
   for mid, status, detail in res:
+    if mid.startswith('seeded/') or mid.startswith('benign/'):
+      out['results'].append({'variant': mid, 'kind': kinds[mid], 'status': status, 'detail': detail})
+      if status == 'skipped':
+        out['skipped'] += 1
+      elif kinds[mid] == 'break':
+        out['corpus_break_total'] += 1
+        if status == 'detected':
+          out['corpus_break_detected'] += 1
+        else:
+          out['failures'].append('stored seeded change %s not detected: %s' % (mid, detail))
+      else:
+        out['corpus_benign_total'] += 1
+        if status == 'silent':
+          out['corpus_benign_silent'] += 1
+        elif status == 'inconclusive':
+          out['corpus_benign_inconclusive'] += 1
+        else:
+          out['failures'].append('stored behaviour-preserving refactoring %s raised an alarm: %s' % (mid, detail))
+      continue
     out['results'].append({'variant': mid, 'kind': kinds[mid], 'status': status, 'detail': detail})
     if status == 'skipped':
       out['skipped'] += 1
